@@ -142,7 +142,8 @@ def utf8 (l : List Char) : List UInt8 := l.flatMap String.utf8EncodeChar
 structure Params where
   /-- `\s` of the regex crate -/
   isWhite : Char → Bool
-  /-- `make` followed by `unmake` of the rules that can reject their expression -/
+  /-- `make` followed by `unmake` of the rules that can reject their expression; for `escaped` the
+      part after the ` (no-eol)` strip, i.e. `apply_escaped_filter_bytes` (see `makeRule`) -/
   make : Kind → List Char → Option (List UInt8)
   /-- `Escaper::escaped_printable` -/
   escPrintable : List UInt8 → List Char
@@ -159,11 +160,33 @@ structure Expectation where
   multiline : Bool
   deriving DecidableEq, Repr
 
-/-- `EqualRule::make`/`EqualNoEolRule::make` keep the text and cannot fail -/
+/-- ` (no-eol)` -/
+def noEolSuffix : List Char := [' ', '(', 'n', 'o', '-', 'e', 'o', 'l', ')']
+
+/-- `str::strip_suffix` -/
+def stripSuffix (suf t : List Char) : Option (List Char) :=
+  (stripPrefix suf.reverse t.reverse).map List.reverse
+
+/-- `EscapedRule::make`, Cram compatibility: a trailing ` (no-eol)` is dropped (once) -/
+def stripNoEol (t : List Char) : List Char :=
+  match stripSuffix noEolSuffix t with
+  | some body => body
+  | none => t
+
+/-- `guard_tailing_no_eol` (src/escaping.rs): where ` (no-eol)` is content of an escaped text its
+    blank is written as the escape sequence `\\x20` -/
+def guardTailingNoEol (t : List Char) : List Char :=
+  match stripSuffix noEolSuffix t with
+  | some body => body ++ ['\\', 'x', '2', '0', '(', 'n', 'o', '-', 'e', 'o', 'l', ')']
+  | none => t
+
+/-- `EqualRule::make`/`EqualNoEolRule::make` keep the text and cannot fail; `EscapedRule::make`
+    strips ` (no-eol)` and then resolves the escape sequences -/
 def makeRule (P : Params) (k : Kind) (e : List Char) : Option (List UInt8) :=
   match k with
   | .equal => some (utf8 e)
   | .noEol => some (utf8 e)
+  | .escaped => P.make .escaped (stripNoEol e)
   | k => P.make k e
 
 def lookupKind (name : List Char) : Option Kind := kindTable.lookup name
@@ -231,12 +254,12 @@ def toExpressionString (P : Params) (e : Expectation) : List Char :=
   let unprintable := P.hasUnprintable e.expr
   match e.kind with
   | .equal =>
-    if unprintable then r ++ [' ', '('] ++ Kind.escaped.name ++ q ++ [')']
+    if unprintable then guardTailingNoEol r ++ [' ', '('] ++ Kind.escaped.name ++ q ++ [')']
     else if q = [] ∧ endsLikeModifier P.isSpaceStd r = true then r ++ [' ', '('] ++ Kind.equal.name ++ [')']
     else if q = [] then r else r ++ [' ', '('] ++ q ++ [')']
   | .escaped =>
-    if unprintable then r ++ [' ', '('] ++ Kind.escaped.name ++ q ++ [')']
-    else doubleBackslash r ++ [' ', '('] ++ Kind.escaped.name ++ q ++ [')']
+    if unprintable then guardTailingNoEol r ++ [' ', '('] ++ Kind.escaped.name ++ q ++ [')']
+    else guardTailingNoEol (doubleBackslash r) ++ [' ', '('] ++ Kind.escaped.name ++ q ++ [')']
   | .glob =>
     if unprintable then r ++ escapedMarker ++ [' ', '('] ++ Kind.glob.name ++ q ++ [')']
     else r ++ [' ', '('] ++ Kind.glob.name ++ q ++ [')']
@@ -273,8 +296,10 @@ def sourceKind (P : Params) (e : Expectation) : Kind :=
 /-- the expression text in front of the modifier of the canonical form -/
 def sourceText (P : Params) (e : Expectation) : List Char :=
   match e.kind with
-  | .equal => P.escPrintable e.expr
-  | .escaped => if P.hasUnprintable e.expr then P.escPrintable e.expr else doubleBackslash (P.escPrintable e.expr)
+  | .equal => if P.hasUnprintable e.expr then guardTailingNoEol (P.escPrintable e.expr) else P.escPrintable e.expr
+  | .escaped =>
+    if P.hasUnprintable e.expr then guardTailingNoEol (P.escPrintable e.expr)
+    else guardTailingNoEol (doubleBackslash (P.escPrintable e.expr))
   | .glob => if P.hasUnprintable e.expr then P.escPrintable e.expr ++ escapedMarker else P.escPrintable e.expr
   | .regex => P.escPrintable e.expr
   | .noEol => P.escPrintable e.expr
